@@ -546,7 +546,9 @@ fn export_name(n: &sw::ModuleExportName) -> String {
 /// One scope = the items of a module or of a namespace block.
 /// dotted: non-first segments of `namespace A.S1...Sk { body }` that are declared again in
 ///         the scope swc's resolver gives to the segments (another segment of the same
-///         name or a declaration at the top level of `body`);
+///         name or a declaration at the top level of `body`), and S1 when the same scope
+///         assigns the expando property `A.S1 = ..` (it lands on the segment's symbol,
+///         whose declarations report the OUTER name);
 /// conflict: import / import-equals bindings also declared in the same scope; "default"
 ///         when the scope has several default-export statements.
 fn scan_scope(items: &[sw::ModuleItem], dotted: &mut Vec<String>, conflict: &mut Vec<String>, top: bool) -> Vec<String> {
@@ -554,12 +556,21 @@ fn scan_scope(items: &[sw::ModuleItem], dotted: &mut Vec<String>, conflict: &mut
   let mut imports: Vec<String> = vec![];
   let mut defaults = 0usize;
   let mut modules: Vec<&sw::TsModuleDecl> = vec![];
+  // expando assignments `X.N = ...` of this scope: (X, N)
+  let mut expandos: Vec<(String, String)> = vec![];
   for item in items {
     match item {
       sw::ModuleItem::Stmt(sw::Stmt::Decl(d)) => {
         decl_names(d, &mut declared);
         if let sw::Decl::TsModule(m) = d {
           modules.push(m);
+        }
+      }
+      sw::ModuleItem::Stmt(sw::Stmt::Expr(e)) => {
+        if let sw::Expr::Assign(a) = &*e.expr {
+          if let Some(x) = ExpandoPropertyRef::maybe_new(a) {
+            expandos.push((x.obj_ident().sym.to_string(), x.prop_name().to_string()));
+          }
         }
       }
       sw::ModuleItem::Stmt(_) => {}
@@ -632,6 +643,13 @@ fn scan_scope(items: &[sw::ModuleItem], dotted: &mut Vec<String>, conflict: &mut
       let dup = segments.iter().enumerate().any(|(j, o)| j != i && o == sgm);
       if (dup || inner_declared.contains(sgm)) && !dotted.contains(sgm) {
         dotted.push(sgm.clone());
+      }
+    }
+    // the first segment is exported by the head symbol: an expando property `Head.Seg = ..`
+    // on a function merged with the namespace lands on the segment's symbol
+    if let (sw::TsModuleName::Ident(head), Some(first)) = (&m.id, segments.first()) {
+      if expandos.iter().any(|(x, n)| x == &head.sym.to_string() && n == first) && !dotted.contains(first) {
+        dotted.push(first.clone());
       }
     }
   }
